@@ -142,3 +142,15 @@ Theorem prepass_loses_nothing (win tile : Z * Z * Z * Z) r c :
 Proof.
   destruct win as [[[a b] c0] d], tile as [[[e f] g] h]. unfold in_rect, rects_intersect. lia.
 Qed.
+
+(* the variance the model computes is never negative: the clamp np.maximum(var, 0) in the source changes nothing in exact arithmetic *)
+Theorem variance_nonneg l thresh : ~ inject_Z (Z.of_nat (length l)) == 0 ->
+  exists v, p_var (band_stats (tile_accum thresh l)) = Fin v /\ 0 <= v.
+Proof.
+  intros Hn. destruct (std_sq_is_population_variance l thresh Hn) as (v & Hv & E). exists v. split; [exact Hv|].
+  rewrite E. set (n := inject_Z (Z.of_nat (length l))) in *.
+  assert (Hpos : 0 < n).
+  { unfold n. assert (0 <= inject_Z (Z.of_nat (length l))) by (unfold Qle, inject_Z; cbn; lia).
+    destruct (Qlt_le_dec 0 (inject_Z (Z.of_nat (length l)))) as [H1|H1]; [exact H1|]. exfalso. apply Hn. apply Qle_antisym; assumption. }
+  apply Qle_shift_div_l; [exact Hpos|]. rewrite Qmult_0_l. apply qsum_sq_nonneg.
+Qed.
